@@ -263,12 +263,10 @@ static FILE *g_real_stdout = nullptr;
 extern "C" void __sanitizer_cov_trace_pc_guard(uint32_t *guard) {
     using namespace net;
     sim::cov_hit(*guard);
+    Node *np = g_handler_node;  // the running task's node while it is a listener inside a handler
+    if (!np) return;
+    Node &n = *np;
     World *w = g_world;
-    if (!w) return;
-    sim::Task *t = w->tasks.cur();
-    if (!t) return;
-    Node &n = w->nodes[t->id];
-    if (!n.in_handler) return;
     n.last_pc = (uint64_t)__builtin_return_address(0);
     if (++n.handler_steps > w->step_budget) {
         uint64_t pc = (uint64_t)__builtin_return_address(0);
